@@ -284,6 +284,32 @@ func isAppendPath(p Path) bool {
 	return ok && i == -1
 }
 
+// pointerParent is the JSON Pointer without its last reference token.
+func pointerParent(pointer string) string {
+	i := strings.LastIndex(pointer, "/")
+	if i < 0 {
+		return ""
+	}
+	return pointer[:i]
+}
+
+// countRemovals counts the leading test / remove pairs on one path. It
+// is the number of elements the hunk removes, which is how far the
+// after context is from the index of the change.
+func countRemovals(patch []patchElement) PathIndex {
+	n := PathIndex(0)
+	for len(patch) >= 2 &&
+		patch[0].Op == "test" && (patch[1].Op == "remove" || patch[1].Op == "replace") &&
+		patch[1].Path == patch[0].Path {
+		n++
+		if len(patch) >= 4 && patch[2].Path != patch[0].Path {
+			break
+		}
+		patch = patch[2:]
+	}
+	return n
+}
+
 // setPatchDiffElementContext detects before and/or after context and
 // sets it on the diff element. It returns what remains of the
 // patch. We expect exactly zero or one test before and zero or one
@@ -316,6 +342,9 @@ func setPatchDiffElementContext(patch []patchElement, d *DiffElement) ([]patchEl
 		// Not an array
 		return patch, nil
 	}
+	if firstIndex == -1 {
+		return nil, fmt.Errorf("JSON Patch test op cannot refer to the end of an array: %q", patch[0].Path)
+	}
 	path, err = readPointer(patch[1].Path)
 	if err != nil {
 		return nil, err
@@ -327,6 +356,13 @@ func setPatchDiffElementContext(patch []patchElement, d *DiffElement) ([]patchEl
 	secondIndex, ok := path[len(path)-1].(PathIndex)
 	if !ok {
 		// Not an array
+		return patch, nil
+	}
+	if secondIndex == -1 && patch[1].Op == "test" {
+		return nil, fmt.Errorf("JSON Patch test op cannot refer to the end of an array: %q", patch[1].Path)
+	}
+	if pointerParent(patch[0].Path) != pointerParent(patch[1].Path) {
+		// Tests of another array are not context of this change.
 		return patch, nil
 	}
 	switch {
@@ -372,8 +408,13 @@ func setPatchDiffElementContext(patch []patchElement, d *DiffElement) ([]patchEl
 	if !ok {
 		return nil, fmt.Errorf("expected path for array. got %q", patch[2].Path)
 	}
+	if pointerParent(patch[2].Path) != pointerParent(patch[0].Path) {
+		// Tests of another array are not context of this change.
+		return patch, nil
+	}
 	switch {
-	case (patch[2].Op == "test" || patch[2].Op == "add") && thirdIndex <= secondIndex:
+	case patch[1].Op == "test" && (patch[2].Op == "test" || patch[2].Op == "add") && thirdIndex != -1 &&
+		firstIndex == thirdIndex-1 && secondIndex == thirdIndex+countRemovals(patch[2:]):
 		// Before and after context.
 		before, err := NewJsonNode(patch[0].Value)
 		if err != nil {
@@ -386,7 +427,7 @@ func setPatchDiffElementContext(patch []patchElement, d *DiffElement) ([]patchEl
 		}
 		d.After = []JsonNode{after}
 		return patch[2:], nil
-	case patch[1].Op == "test" && (patch[2].Op == "replace" || patch[2].Op == "remove") && firstIndex > secondIndex:
+	case patch[1].Op == "test" && (patch[2].Op == "replace" || patch[2].Op == "remove") && firstIndex == secondIndex+countRemovals(patch[1:]):
 		// After context with replace / remove.
 		d.Before = []JsonNode{voidNode{}}
 		after, err := NewJsonNode(patch[0].Value)
@@ -395,7 +436,7 @@ func setPatchDiffElementContext(patch []patchElement, d *DiffElement) ([]patchEl
 		}
 		d.After = []JsonNode{after}
 		return patch[1:], nil
-	case patch[1].Op == "test" && (patch[2].Op == "replace" || patch[2].Op == "remove") && firstIndex < secondIndex:
+	case patch[1].Op == "test" && (patch[2].Op == "replace" || patch[2].Op == "remove") && firstIndex == secondIndex-1:
 		// Before context with replace / remove.
 		before, err := NewJsonNode(patch[0].Value)
 		if err != nil {
@@ -434,6 +475,9 @@ func readPatchDiffElement(patch []patchElement) (DiffElement, []patchElement, er
 		d.Path, err = readPointer(p.Path)
 		if err != nil {
 			return d, nil, err
+		}
+		if isAppendPath(d.Path) {
+			return d, nil, fmt.Errorf("JSON Patch test op cannot refer to the end of an array: %q", p.Path)
 		}
 		// Read value to test and remove.
 		testValue, err := NewJsonNode(p.Value)
